@@ -37,7 +37,7 @@ def collect_apps(formulas, names):
         if z3.is_app(t):
             if t.num_args() > 0 or True:
                 n = t.decl().name()
-                if n in out and t.decl().kind() == z3.Z3_OP_UNINTERPRETED and t.num_args() > 0:
+                if n in out and t.num_args() > 0:
                     out[n].append(t)
             todo.extend(t.children())
         # quantifier bodies are not searched: their terms contain bound variables
